@@ -5,6 +5,7 @@ import (
 	"fmt"
 	"os"
 	"testing"
+	"testing/synctest"
 )
 
 func TestDebugReplay(t *testing.T) {
@@ -18,6 +19,27 @@ func TestDebugReplay(t *testing.T) {
 		t.Fatal(err)
 	}
 	DebugORGD = true
-	_, err := RunPlan(p, nil)
-	fmt.Println("ERR:", err)
+	DebugLinger = os.Getenv("DBG_LINGER") != ""
+	reps := 1
+	fmt.Sscanf(os.Getenv("DBG_REPEAT"), "%d", &reps)
+	run := func() {
+		for i := 0; i < reps; i++ {
+			var tr []string
+			DebugTrace = &tr
+			_, err := RunPlan(p, nil)
+			if err != nil || i == reps-1 {
+				for _, l := range tr {
+					fmt.Println("  ", l)
+				}
+				fmt.Println("attempt", i, "ERR:", err)
+				return
+			}
+		}
+	}
+	if os.Getenv("DBG_BUBBLE") != "" {
+		InBubble = true
+		synctest.Test(t, func(t *testing.T) { run() })
+	} else {
+		run()
+	}
 }
